@@ -154,8 +154,9 @@ func (env *vEnv) checkStateC03(sp *vSpec, label string) {
 			}
 		}
 		// unique index on name: exactly {name -> id}
-		nameIdx := Path(tx, vRootPath, IndexesBucket, vEmpType, vFName)
-		nickIdx := Path(tx, vRootPath, IndexesBucket, vEmpType, vFNick)
+		// (the index buckets are named after the symbols, which a keyed store names unlike the fields)
+		nameIdx := Path(tx, vRootPath, IndexesBucket, vEmpType, env.emp.symName.GetName())
+		nickIdx := Path(tx, vRootPath, IndexesBucket, vEmpType, env.emp.symNick.GetName())
 		verifrt.Assert(nameIdx != nil && nickIdx != nil, label+": unique index buckets exist")
 		wantNames, wantNicks := 0, 0
 		ok := true
@@ -359,6 +360,16 @@ func VerifC03_UniqueName()         { verifC03Step(vStoreCfg{nickNullable: true},
 func VerifC03_NullableUniqueNick() { verifC03Step(vStoreCfg{nickNullable: true}, vFocusNick) }
 func VerifC03_NonNullUniqueNick()  { verifC03Step(vStoreCfg{nickNullable: false}, vFocusNick) }
 func VerifC03_SetIndexRoles()      { verifC03Step(vStoreCfg{nickNullable: true}, vFocusRoles) }
+
+// The same steps on a store whose indexed symbols are named unlike the fields
+// they are stored under (AddSymbolWithKey): symbol name and field name are two
+// different keys into everything that is looked up by name (field checkers).
+func VerifC03_KeyedSymbolUniqueName() {
+	verifC03Step(vStoreCfg{nickNullable: true, symKeyed: true}, vFocusName)
+}
+func VerifC03_KeyedSymbolNullableNick() {
+	verifC03Step(vStoreCfg{nickNullable: true, symKeyed: true}, vFocusNick)
+}
 
 // VerifC03_IndexesFollowChildEntities: the parent's indexes are maintained by
 // the same constraints when the entity is a child-store entity, for which the
